@@ -69,7 +69,8 @@ pub fn classify(msg: &str) -> String {
         "!"
     } else if msg.contains("is not a char boundary") {
         "c"
-    } else if msg.contains("invalid slice") || msg.contains("start <= end") || msg.contains("start.raw <= end.raw") {
+    } else if msg.contains("invalid slice") || (msg.starts_with("assertion failed: ") && msg.contains("<=")) {
+        // (a bare `assert!(a <= b)` prints its expression: the names of locals are not part of the behaviour)
         "r"
     } else if msg.contains("Bad offset") || msg.contains("Bad range") {
         "o"
